@@ -8,7 +8,7 @@ template reads the same-named member of the input through the documented convert
 magic members in every derived element-level fn.  Not decided: token-for-token reprinting."""
 import re
 
-from vlib import mir, tpl, derived
+from vlib import resalg, mir, tpl, derived
 from . import common
 
 META = dict(
@@ -146,41 +146,43 @@ def run(ctx):
     f = ctx.fn("darling_core::ast::data::Data::<V, F>::try_from")
     if f:
         arms = {}
-        for blk, e in ctx.ret_exprs(f):
+        for conds, v in resalg.cases(ctx, f):
+            for a in conds:
+                m = re.match(r"^discr\(a1\)=(\w+)$", a)
+                if m:
+                    arms.setdefault(m.group(1), []).append((conds, v))
+        ctx.ob("C16.E.data-kinds", f.key, "Enum / Struct / Union", set(arms) == {"Enum", "Struct", "Union"}, "%s" % sorted(arms))
+        ok = any(v.startswith("darling_core::error::Accumulator::finish_with(") and "Data::Enum{" in v for c, v in arms.get("Enum", []))
+        ctx.ob("C16.E.enum-stays-enum", f.key, "Enum → finish_with(Data::Enum(items))", ok, "%s" % [v[:140] for c, v in arms.get("Enum", [])])
+        FT = "darling_core::ast::data::Fields::<F>::try_from((a1 as Struct).0.fields)"
+        st = sorted(v for c, v in arms.get("Struct", []))
+        ok = st == sorted(["core::result::Result::Ok{darling_core::ast::data::Data::Struct{(%s as Ok).0}}" % FT, "core::result::Result::Err{(%s as Err).0}" % FT])
+        ctx.ob("C16.E.struct-stays-struct", f.key, "Struct → Data::Struct(Fields::try_from(&data.fields)?)", ok, "%s" % [v[:160] for v in st])
+        ok = [v for c, v in arms.get("Union", [])] == ['core::result::Result::Err{darling_core::error::Error::custom("Unions are not supported")}']
+        ctx.ob("C16.E.union-is-error", f.key, "Union → Err", ok, "%s" % arms.get("Union"))
+        hs = [h for h in ctx.per_element(f, r"FromVariant(>)?::from_variant$")]
+        ok = len(hs) == 1 and hs[0]["form"] in ("adapter", "loop") and "iter((a1 as Enum).0.variants)" in hs[0]["source"].replace("syn::punctuated::Punctuated::<T, P>::", "")
+        ctx.ob("C16.G.one-entry-per-variant-in-order", f.key, "from_variant once per variant of variants.iter()", ok, "%s" % [(h["form"], h["source"][:140]) for h in hs])
+    f = ctx.fn("darling_core::ast::data::Fields::<F>::try_from")
+    if f:
+        hs = ctx.per_element(f, r"FromField(>)?::from_field$")
+        srcs = sorted(re.sub(r".*iter\(", "iter(", h["source"]) for h in hs)
+        ctx.ob("C16.G.one-entry-per-field-in-order", f.key, "named.iter() / unnamed.iter()", srcs == ["iter((a1 as Named).0.named)", "iter((a1 as Unnamed).0.unnamed)"] and all(h["form"] in ("adapter", "loop") for h in hs), "%s" % srcs)
+        # each conversion stands in the arm of its own field kind
+        for blk, t, owner in ctx.find_calls_deep(f, r"FromField(>)?::from_field$", helpers=1):
+            pcs = ctx.pc_strs(f, blk)
+            kinds = {m.group(1) for d in pcs for a in d for m in [re.match(r"^discr\(a1\)=(Named|Unnamed)$", a)] if m}
+            ctx.ob("C16.E.field-kinds", f.key, "from_field in the arm of %s" % sorted(kinds), len(kinds) == 1, "path conditions %s" % [sorted(d) for d in pcs])
+        # named fields located by their name; unnamed not
+        ats = {}
+        for blk, t, owner in ctx.find_calls_deep(f, r"^darling_core::error::Error::at$", helpers=2):
             for d in ctx.pc_strs(f, blk):
                 for a in d:
                     m = re.match(r"^discr\(a1\)=(\w+)$", a)
                     if m:
-                        arms.setdefault(m.group(1), []).append(e)
-        ctx.ob("C16.E.data-kinds", f.key, "Enum / Struct / Union", set(arms) == {"Enum", "Struct", "Union"}, "%s" % sorted(arms))
-        ok = any(e.startswith("darling_core::error::Accumulator::finish_with(") and "Data::Enum{" in e for e in arms.get("Enum", []))
-        ctx.ob("C16.E.enum-stays-enum", f.key, "Enum → finish_with(Data::Enum(items))", ok, "%s" % [e[:140] for e in arms.get("Enum", [])])
-        ok = any("Data::Struct{" in e and "Fields::<F>::try_from((a1 as Struct).0.fields)" in e for e in arms.get("Struct", []))
-        ctx.ob("C16.E.struct-stays-struct", f.key, "Struct → Data::Struct(Fields::try_from(&data.fields)?)", ok, "%s" % [e[:160] for e in arms.get("Struct", [])])
-        ok = arms.get("Union") == ['core::result::Result::Err{darling_core::error::Error::custom("Unions are not supported")}']
-        ctx.ob("C16.E.union-is-error", f.key, "Union → Err", ok, "%s" % arms.get("Union"))
-        it = ctx.find_calls(f, r"Iterator>::filter_map|Iterator::filter_map")
-        ok = len(it) == 1 and "iter((a1 as Enum).0.variants)" in ctx.expr(f, it[0][1]["args"][0]).replace("syn::punctuated::Punctuated::<T, P>::", "")
-        ctx.ob("C16.G.one-entry-per-variant-in-order", f.key, "variants.iter().filter_map(handle(from_variant))", ok, "%s" % [ctx.expr(f, t["args"][0])[:140] for _, t in it])
-    f = ctx.fn("darling_core::ast::data::Fields::<F>::try_from")
-    if f:
-        its = ctx.find_calls(f, r"Iterator>::filter_map|Iterator::filter_map")
-        srcs = sorted(re.sub(r".*iter\(", "iter(", ctx.expr(f, t["args"][0])) for _, t in its)
-        ctx.ob("C16.G.one-entry-per-field-in-order", f.key, "named.iter() / unnamed.iter()", srcs == ["iter((a1 as Named).0.named)", "iter((a1 as Unnamed).0.unnamed)"], "%s" % srcs)
-        for blk, t in its:
-            want = "Named" if "Named" in ctx.expr(f, t["args"][0]) else "Unnamed"
-            ctx.requires("C16.E.field-kinds", f, blk, "filter_map over %s" % want, [r"discr\(a1\)=%s$" % want])
-        # named fields located by their name; unnamed not
-        named_at = unnamed_at = 0
-        for c in ctx.closures_of(f):
-            sub = ctx.closures_of(c)
-            has_at = any(ctx.find_calls(x, r"^darling_core::error::Error::at$") for x in [c] + sub)
-            if ctx.find_calls(c, r"FromField>::from_field$"):
-                if has_at:
-                    named_at += 1
-                else:
-                    unnamed_at += 1
-        ctx.ob("C16.G.named-fields-located", f.key, "err.at(ident) only for named fields", (named_at, unnamed_at) == (1, 1), "closures with at(): %d, without: %d" % (named_at, unnamed_at))
+                        ats.setdefault(m.group(1), []).append(ctx.expr(owner, t["args"][1]))
+        ok = set(ats) == {"Named"} and all(re.search(r"ident", x) for x in ats["Named"])
+        ctx.ob("C16.G.named-fields-located", f.key, "err.at(ident) only for named fields", ok, "Error::at calls per field kind: %s" % ats)
         news = ctx.find_calls(f, r"Fields::<T>::new$")
         ok = len(news) == 1 and "From<&syn::data::Fields>>::from(a1)" in ctx.expr(f, news[0][1]["args"][0]).replace("core::convert::Into<U>>::into", "From<&syn::data::Fields>>::from") or len(news) == 1 and "a1" in ctx.expr(f, news[0][1]["args"][0])
         ctx.ob("C16.G.style-from-input", f.key, "Fields::new(fields.into(), items)", ok, "%s" % [ctx.expr(f, t["args"][0])[:140] for _, t in news])
